@@ -59,6 +59,8 @@ class VariableBoundVisitor(ModelVisitor):
         self.depth = 0
         self.process_subscript = True
         self.propagators = []
+        self._in_use = True
+        self._composite_depth = 0
         
         # Result data from processing expressions
         self.field = None
@@ -105,8 +107,19 @@ class VariableBoundVisitor(ModelVisitor):
             b.update()
 #            print(b.toString())
             
+    def visit_composite_field(self, f):
+        # The constraint blocks of an object that is not random in this
+        # call are not enforced, and so must not narrow any range
+        in_use = self._in_use
+        if self._composite_depth > 0:
+            self._in_use = in_use and f.is_declared_rand and f.rand_mode
+        self._composite_depth += 1
+        super().visit_composite_field(f)
+        self._composite_depth -= 1
+        self._in_use = in_use
+        
     def visit_constraint_block(self, c:ConstraintBlockModel):
-        if c.enabled:
+        if c.enabled and self._in_use:
             super().visit_constraint_block(c)
 
     def visit_constraint_if_else(self, c:ConstraintIfElseModel):
